@@ -34,6 +34,8 @@ def showFile (f : ASetFile) : String :=
 def fileOf (c : List String) : Option ASetFile :=
   match c with
   | _ :: "aset" :: m :: clip :: sets => some ⟨optOf m, listOf clip, sets.map listOf⟩
+  -- second use: the same round trip after other (failing) calls on the thread — same expected line
+  | _ :: "aset-after" :: m :: clip :: sets => some ⟨optOf m, listOf clip, sets.map listOf⟩
   | _ => none
 
 /-- The model's line: serialize → parse → from_archive → serialize. -/
@@ -118,6 +120,8 @@ def oracle (f : ASetFile) (i : List String) : String :=
     else if value != showFile f then "FAIL roundtrip: re-read value differs from the input"
     else if re != "same" then "FAIL idempotent: re-serialising the re-read value gives other bytes"
     else "ok"
+  | _ :: "ok" :: _ :: _ :: "rr-ok" :: _ :: _ :: "unstable" :: _ =>
+    "FAIL roundtrip: the same round trip gives different results after other (failing) calls on the thread"
   | _ :: "panic" :: _ => "FAIL panic"
   | _ :: "err" :: _ => "FAIL serialize failed"
   | _ => "FAIL roundtrip: the serialised file could not be re-read"
